@@ -12,7 +12,9 @@ RefIdx == {l \in 1..Len(Rec) : Prop = "C14" /\ Rec[l].who = "fresh"}
 Ref == [k \in {Rec[l].k : l \in RefIdx} |-> Rec[CHOOSE l \in RefIdx : Rec[l].k = k].res]
 
 V3(r) == IF "multi" \in DOMAIN r THEN First([k \in 1..Len(r.multi) |-> VerdictC03(r.q, r.multi[k])])
-         ELSE IF "lookup" \in DOMAIN r /\ r.lookup = "none" THEN "built-in-language-not-resolvable" ELSE "tool-error"
+         ELSE IF "lookup" \in DOMAIN r /\ r.lookup = "panic" THEN "language-lookup-panics"
+         ELSE IF "lookup" \in DOMAIN r /\ r.lookup = "none" THEN ""          \* a non-code: nothing to run (C13 judges which codes resolve)
+         ELSE "tool-error"
 V(l) == LET r == Rec[l] IN
         CASE Prop = "C03" -> V3(r)
           [] Prop = "C13" -> VerdictC13(r.q, r)
